@@ -474,6 +474,11 @@ class UnitsExecutor(Executor):
         for (s, v) in self.ev(n.value, st):
             items = self.concrete_items(s, v)
             if items is None:
+                view = self.seq_view(s, v)
+                if view is not None and isinstance(view[1](K), AUnit):
+                    self.y_extend(s, view[0], view[1])
+                    out.append((s, NONE))
+                    continue
                 raise Unsupported(f"{self.loc(n)} yield from a symbolic iterable")
             states = [s]
             for it in items:
@@ -779,7 +784,9 @@ class UnitsExecutor(Executor):
             if isinstance(other, VRef) and st.obj(other.ref).kind == "alist":
                 other = st.obj(other.ref).data
             same = isinstance(other, VSeq) and other.ekind == sq.ekind and sq.ekind != "unk"
-            if same:
+            if z3.is_int_value(z3.simplify(n0)) and z3.simplify(n0).as_long() == 0 and isinstance(other, VSeq) and (same or sq.ekind == "unk"):
+                new = VSeq(m, oe, other.ekind, tag=other.tag)            # extending an empty list: the result IS the other sequence
+            elif same:
                 new = VSeq(n0 + m, lambda k, n0=n0, old=old, oe=oe: _ite_val(k < n0, old(k), oe(k - n0)), sq.ekind)
             else:
                 new = VSeq(n0 + m, lambda k: VUnk("elem"), "unk")
@@ -800,7 +807,8 @@ class UnitsExecutor(Executor):
                 and o.kind == "list":
             # concrete list extended by a symbolic sequence: becomes an abstract list
             kinds = {repr(ekind_of_value(x)) for x in o.data}
-            ek = ekind_of_value(o.data[0]) if len(kinds) == 1 else ("unk" if o.data else getattr(args[0], "ekind", "unk"))
+            src = st.obj(args[0].ref).data if isinstance(args[0], VRef) and st.obj(args[0].ref).kind == "alist" else args[0]
+            ek = ekind_of_value(o.data[0]) if len(kinds) == 1 else ("unk" if o.data else getattr(src, "ekind", "unk"))
             items = list(o.data)
             base = VSeq(z3.IntVal(len(items)), lambda k, items=items: _sel(items, k), ek if items else ek)
             st.heap[obj.ref] = HeapObj("alist", base, None, o.fresh)
@@ -962,7 +970,7 @@ class UnitsExecutor(Executor):
                             for s5, a in zip(vals, acc):
                                 for (s6, v) in self.ev(en, s5):
                                     nv.append(s6)
-                                    na.append(a + [v])
+                                    na.append(a + [self.comp_value(s6, v, n)])
                             vals, acc = nv, na
                         outs.extend(acc)
             finally:
@@ -1018,6 +1026,18 @@ class UnitsExecutor(Executor):
                     z3.And(cnt >= 0, cnt < sq.length, sq.elem(cnt).t == z3.substitute(el_k, (K, kk)))), patterns=[cnt]))
                 sq.tag = ("filtered", keep, length)
         return st, sq
+
+    def comp_value(self, st, v, node):
+        """hook: the value an element expression of a comprehension over a symbolic sequence contributes"""
+        return v
+
+    def y_extend(self, st, length, elem):
+        """the generator yields a whole symbolic sequence of observed units"""
+        n0, nums, txts = self.y_get(st)
+        st.assume(length >= 0)
+        u = elem(K - n0)
+        st.ghost["Y"] = (z3.simplify(n0 + length), z3.Lambda([K], z3.If(K < n0, z3.Select(nums, K), u.num)),
+                         z3.Lambda([K], z3.If(K < n0, z3.Select(txts, K), u.text)))
 
     def e_ListComp(self, n, st):
         r = self._sym_comp(n, st, [n.elt])
